@@ -6,18 +6,22 @@ PROTO = "70:6d+6e"          # protocol p, methods m n (handlers block until the 
 M = b"p.m"
 
 
-def arg(nonce, pad=0):
-    """argument / result convention: a[i:<nonce>, b:<padding>]"""
+def arg(nonce, pad=0, shape="b"):
+    """argument / result convention: a[i:<nonce>, <padding>]; the padding is a byte string, a string or an array"""
+    if shape == "s":
+        return [nonce, ("s", bytes(97 + ((nonce + i) % 26) for i in range(pad)))]
+    if shape == "a":
+        return [nonce, [(nonce + i) & 0x7f for i in range(pad)]]
     return [nonce, ("b", bytes((nonce * 31 + i) & 0xff for i in range(pad)))]
 
 
-def call(c, pad=0, ctype=0, tags="-", timeout=0, nowait=False, meth=M):
-    s = "call/c%d/%s/%s/%d/%s/%d" % (c, meth.hex(), T(arg(c, pad)), ctype, tags, timeout)
+def call(c, pad=0, ctype=0, tags="-", timeout=0, nowait=False, meth=M, shape="b"):
+    s = "call/c%d/%s/%s/%d/%s/%d" % (c, meth.hex(), T(arg(c, pad, shape)), ctype, tags, timeout)
     return s + ("/nowait" if nowait else "")
 
 
-def notify(c, pad=0, tags="-", timeout=0, nowait=False, meth=M):
-    s = "notify/n%d/%s/%s/%s/%d" % (c, meth.hex(), T(arg(c, pad)), tags, timeout)
+def notify(c, pad=0, tags="-", timeout=0, nowait=False, meth=M, shape="b"):
+    s = "notify/n%d/%s/%s/%s/%d" % (c, meth.hex(), T(arg(c, pad, shape)), tags, timeout)
     return s + ("/nowait" if nowait else "")
 
 
@@ -49,26 +53,26 @@ def feed_cancel(seq, meth=M):
     return "feed/" + frames.frame(c, ch).hex()
 
 
-def finish(h, nonce, pad=0, err="-", nowait=False):
-    return "finish/%d/%s/%s" % (h, T(arg(nonce, pad)), err) + ("/nowait" if nowait else "")
+def finish(h, nonce, pad=0, err="-", nowait=False, shape="b"):
+    return "finish/%d/%s/%s" % (h, T(arg(nonce, pad, shape)), err) + ("/nowait" if nowait else "")
 
 
 def line(kind, ident, script, max_=1048576, extra=""):
     return "%s %s max=%d protocols=%s %s script=%s" % (kind, ident, max_, PROTO, extra, ";".join(script))
 
 
-def call_content_len(nonce, pad, meth=M, seq=0):
+def call_content_len(nonce, pad, meth=M, seq=0, shape="b"):
     """content length of the call frame for a given padding (canonical encoding)"""
-    return len(frames.content([0, seq, ("s", meth), arg(nonce, pad)], mp.Chooser()))
+    return len(frames.content([0, seq, ("s", meth), arg(nonce, pad, shape)], mp.Chooser()))
 
 
-def pad_for_len(nonce, target, kind="call", seq=0):
+def pad_for_len(nonce, target, kind="call", seq=0, shape="b"):
     """padding that makes the frame content exactly `target` bytes long (None if impossible)"""
     for pad in range(max(0, target - 40), target + 1):
         if kind == "call":
-            n = call_content_len(nonce, pad, seq=seq)
+            n = call_content_len(nonce, pad, seq=seq, shape=shape)
         else:
-            n = len(frames.content([2, ("s", M), arg(nonce, pad)], mp.Chooser()))
+            n = len(frames.content([2, ("s", M), arg(nonce, pad, shape)], mp.Chooser()))
         if n == target:
             return pad
     return None
